@@ -487,4 +487,5 @@ def run(model, R):
     # every derivation goes through the closures that Vectors._pair_with builds (C01's rules for them are a dependency)
     from . import c01
     R.guard('WIRING', None, '_pair_with closures', c01.closure_rules, model, R)
+    R.guard('WIRING', None, 'Relation.__new__', c01.relation_new, model, R)
     return __doc__.strip()
